@@ -98,6 +98,7 @@ theorem Inv.step {r r' : Representation} {hs : List Hint} {h : Hint}
     cases repr <;> simp at hp
     subst hp
     inv_close
+  | rust => simp [parseStep] at hp
 
 theorem Inv.parseFrom {l : List Hint} : ∀ {r r' : Representation} {hs : List Hint},
     Inv r hs → parseFrom r l = some r' → Inv r' (hs ++ l) := by
